@@ -60,11 +60,12 @@ type arpFrame struct {
 }
 
 type c13Run struct {
-	c    *wk.Ctx
-	idx  int64
-	ops  []aop
-	viol bool
-	nForged, nCorrective, nReplies, nRejects, nCycles, nRelayed, nAltStarts, nUnicastReq, nConfirms, nStopOtherFamily int
+	c                                                                                                                           *wk.Ctx
+	idx                                                                                                                         int64
+	ops                                                                                                                         []aop
+	viol                                                                                                                        bool
+	nForged, nCorrective, nReplies, nRejects, nCycles, nRelayed, nAltStarts, nUnicastReq, nConfirms, nStopOtherFamily, nWindows int
+	window                                                                                                                      bool
 }
 
 func (r *c13Run) history() {
@@ -99,6 +100,19 @@ func (r *c13Run) history() {
 		return map[string]any{"index": r.idx, "history": ops}
 	}
 	rx := newRx()
+	if r.idx%4 == 1 {
+		// the spoof loop takes a moment between looking at the hunt list and sending (it yields there): a StopHunt / Close that
+		// falls due at the same virtual instant as a cycle lands inside that window
+		yf := func(point string) {
+			if point == "arp:spoofLoop:before-send" {
+				time.Sleep(time.Duration(1+r.idx%5) * time.Millisecond)
+			}
+		}
+		packet.VerifYield.Store(&yf)
+		defer packet.VerifYield.Store(nil)
+		r.nWindows++
+		r.window = true
+	}
 	feed := func(b []byte) {
 		frame, err := s.Parse(rx.load(b))
 		if err != nil {
@@ -268,6 +282,54 @@ func (r *c13Run) history() {
 			c.Viol(key, detail, data)
 		}
 		r.viol = true
+	}
+	if r.window {
+		// histories with the send window open: the instants of the cycles shift and a packet the loop had decided on may follow
+		// a StopHunt / Close by the length of the window, so the timing rules below do not apply. What is judged: nothing
+		// forged ever reaches a station that was never hunted, and a station whose hunt was stopped (and not started again,
+		// with the handler open for at least another cycle) is left with the router's real MAC - the last packet about the
+		// router's address it gets is the restoring one
+		ever := map[string]bool{}
+		lastEnd := map[string]arpEvent{}
+		var closeT time.Time
+		for _, e := range events {
+			switch {
+			case e.kind == "start" && e.extra == "new":
+				ever[e.mac] = true
+				delete(lastEnd, e.mac)
+			case e.kind == "stop" && e.extra == "was-hunted":
+				lastEnd[e.mac] = e
+			case e.kind == "close":
+				closeT = e.t
+			}
+		}
+		for _, f := range frames {
+			if (f.class == "forged-periodic" || f.class == "forged-reply") && !ever[string(f.dst[:])] {
+				fail("arp:forged-to-non-hunted:"+f.class, fmt.Sprintf("%s to %x which was never hunted", f.class, f.dst[:]))
+			}
+		}
+		for mac, e := range lastEnd {
+			if !closeT.IsZero() && closeT.Sub(e.t) <= arpCycle+time.Second {
+				continue
+			}
+			lastForged, lastCorrective := -1, -1
+			for _, f := range frames {
+				if string(f.dst[:]) != mac || f.seq < e.seq {
+					continue
+				}
+				switch f.class {
+				case "forged-periodic", "forged-reply":
+					lastForged = f.seq
+				case "corrective":
+					lastCorrective = f.seq
+				}
+			}
+			if lastCorrective < 0 || lastForged > lastCorrective {
+				fail("arp:left-poisoned-after-stop", fmt.Sprintf("after StopHunt(%x) the last packet about the router's address sent to it is not the restoring one (last forged seq %d, last restoring seq %d)", mac, lastForged, lastCorrective))
+			}
+			r.nCorrective++
+		}
+		return
 	}
 	// ---- hunt intervals by frame sequence watermarks
 	type interval struct {
@@ -511,6 +573,7 @@ func runC13(c *wk.Ctx) {
 		c.Obs("relayed_requests_mixed_hunt_state", int64(run.nRelayed))
 		c.Obs("router_requests_sent_unicast", int64(run.nUnicastReq))
 		c.Obs("dhcp_confirmations", int64(run.nConfirms))
+		c.Obs("histories_with_send_window", int64(run.nWindows))
 		c.Obs("stophunt_with_ipv6_or_no_address", int64(run.nStopOtherFamily))
 		c.Obs("starthunt_with_another_ip", int64(run.nAltStarts))
 		if !run.viol && run.nForged > 0 && run.nCorrective > 0 {
